@@ -467,7 +467,10 @@ func init() {
 		wireOut := fs.String("wire-trace", "", "output NDJSON for TraceWire")
 		long := fs.Int("long", 4, "long-lived connections with hundreds of frames each")
 		hugeEvery := fs.Int("huge-every", 0, "every n-th row uses >1 MiB for the x class (0 = never)")
+		connTrace := fs.String("conn-trace", "", "output NDJSON of the hook events of every k-th connection (TraceSend, TraceRecv)")
+		traceEvery := fs.Int("trace-every", 6, "k")
 		fs.Parse(args)
+		setupRecvTrace(*connTrace, *traceEvery)
 		rep := newReport("roundtrip")
 		var evals, rows int64
 		if *trim != "" {
@@ -623,6 +626,9 @@ func init() {
 			rep.Extra["wire_traces_not_sent_to_tlc"] = wireSkipped
 		}
 		rep.Evaluations, rep.Rows, rep.Distinct = evals, rows, rows
+		if err := finishRecvTrace(*connTrace, rep); err != nil {
+			return err
+		}
 		rep.print()
 		return nil
 	}
